@@ -476,6 +476,42 @@ def sign_cases(ctx, n):
     return out
 
 
+def interpreter_modes(ctx):
+    """What Quantity(...) computes and registers must not depend on the interpreter mode: fixed constructions are run in child
+    interpreters started as python and python -O (SymPy 1.14 does not import under -OO) and compared with the values the
+    property fixes."""
+    import json as _json  # pylint: disable=import-outside-toplevel
+    import os  # pylint: disable=import-outside-toplevel
+    import subprocess  # pylint: disable=import-outside-toplevel
+    from vp import c05_probe  # pylint: disable=import-outside-toplevel
+    probe = str(common.VERIF / "harness" / "vp" / "c05_probe.py")
+    env = dict(os.environ, PYTHONPATH=str(common.REPO), PYTHONDONTWRITEBYTECODE="1")
+    n = 0
+    for flags in ([], ["-O"]):
+        mode = ("python " + " ".join(flags)).strip()
+        try:
+            r = subprocess.run([common.PYTHON, *flags, probe], capture_output=True, text=True, timeout=600, env=env, check=False)
+            data = _json.loads(r.stdout)
+        except Exception as e:  # pylint: disable=broad-except
+            ctx.violation(f"C05:modes:{mode}:probe-failed", f"the construction probe did not run under `{mode}`: {type(e).__name__}: {e}"[:300],
+                {"kind": "broken-tie", "mode": mode}, found_input=False)
+            continue
+        for row in data["results"]:
+            n += 1
+            name, want = row[0], c05_probe.EXPECTED[row[0]]
+            if isinstance(want, str):
+                ok = len(row) == 2 and row[1] == want
+                got = row[1:]
+            else:
+                ok = len(row) == 5 and row[1] == want[0] and row[2] == want[0] and row[3] == want[1] and row[4] == want[1]
+                got = {"object": row[1:2] + row[3:4], "SI tables": row[2:3] + row[4:5]} if len(row) == 5 else row[1:]
+            if not ok:
+                ctx.violation(f"C05:modes:{mode}:{name}", f"under `{mode}` Quantity({name}) gives {got}, the property requires {want}",
+                    {"kind": "violation", "stream": "interpreter-modes", "mode": mode, "construction": name, "observed": got, "required": want,
+                     "how": f"PYTHONPATH={common.REPO} {common.PYTHON} {' '.join(flags)} {probe}"}, True)
+    return n
+
+
 # ---- specification predicate, written from the property text (used only after a disagreement) ------
 
 def spec(expr):
@@ -698,6 +734,7 @@ def run(ctx):
             "observed_is_positive": str(c["claim"]), "gallina": c["lit"],
             "theorem_or_tie": "correspondence QSign.qty_is_positive ~ Quantity._eval_is_positive"}, True)
     hist[("sign", "compared")] = len(sg)
+    hist[("interpreter-modes", "constructions")] = interpreter_modes(ctx)
     hist[("evalbuild", "compared")] = len(ev)
     hist[("evalbuild", "skipped-nan-zoo-or-irrational")] = ev_skipped
     cases = cases + ev
